@@ -83,7 +83,7 @@ func genVal(t *rapid.T) *hist.AttrVal {
 		return &hist.AttrVal{Kind: "[]f64", N: 9000, Seed: rapid.IntRange(0, 99).Draw(t, "seed")}
 	}
 	k := rapid.SampledFrom([]string{"i8", "i16", "i32", "i64", "u8", "u16", "u32", "u64", "f32", "f64", "str", "str", "[]i32", "[]i64", "[]f32", "[]f64",
-		"i32", "f64", "str"}).Draw(t, "kind")
+		"i32", "f64", "str", "[]f32:named", "[]f64:named", "[]i32:named", "[]f32:elem", "[]i64:elem"}).Draw(t, "kind")
 	a := &hist.AttrVal{Kind: k, Seed: rapid.IntRange(0, 1<<16).Draw(t, "seed")}
 	switch {
 	case k == "str":
@@ -92,6 +92,13 @@ func genVal(t *rapid.T) *hist.AttrVal {
 		a.N = rapid.OneOf(rapid.IntRange(1, 4), rapid.IntRange(1, 64)).Draw(t, "len")
 	}
 	return a
+}
+
+// longArray: a one-dimensional value of 511..513 elements (2..4 KiB). At most three per history: the dense attribute heap
+// never reuses space, and a heap that outgrows its first 64 KiB block is C15's open finding.
+func longArray(t *rapid.T) *hist.AttrVal {
+	return &hist.AttrVal{Kind: rapid.SampledFrom([]string{"[]f64", "[]f32", "[]i32", "[]i64", "[]f64:named"}).Draw(t, "longKind"),
+		N: rapid.SampledFrom([]int{511, 512, 513}).Draw(t, "longLen"), Seed: rapid.IntRange(0, 1<<16).Draw(t, "seed")}
 }
 
 func gen(t *rapid.T) Case {
@@ -126,8 +133,14 @@ func gen(t *rapid.T) Case {
 	}
 	n := rapid.IntRange(1, vt.N(60, 300)).Draw(t, "nops")
 	burst := rapid.IntRange(0, 3).Draw(t, "burst") == 0 // start with a burst of distinct writes to cross the dense threshold early
+	longs := 0
 	for i := 0; i < n; i++ {
 		var op Op
+		if longs < 3 && c.Crowd == 0 && c.Obj == "dataset" && rapid.IntRange(0, 24).Draw(t, "long") == 0 {
+			longs++
+			c.Ops = append(c.Ops, Op{K: "w", Name: nameGen.Draw(t, "name"), A: longArray(t)})
+			continue
+		}
 		if burst && i < 10 {
 			op = Op{K: "w", Name: i % pool, A: genVal(t)}
 		} else {
